@@ -301,11 +301,12 @@ func (p *printVisitor) EnterOperationDefinition(ref int) {
 	hasName := p.document.OperationDefinitions[ref].Name.Length() > 0
 	hasVariables := p.document.OperationDefinitions[ref].HasVariableDefinitions
 	hasDirectives := p.document.OperationDefinitions[ref].HasDirectives
+	hasDescription := p.document.OperationDefinitions[ref].Description.IsDefined
 
 	switch p.document.OperationDefinitions[ref].OperationType {
 	case ast.OperationTypeQuery:
-		// the shorthand form `{ ... }` is only available to a query without name, variables and directives
-		if hasName || hasVariables || hasDirectives {
+		// the shorthand form `{ ... }` is only available to a query without name, variables, directives and description
+		if hasName || hasVariables || hasDirectives || hasDescription {
 			p.write(literal.QUERY)
 		}
 	case ast.OperationTypeMutation:
